@@ -147,16 +147,35 @@ AMB == 99            \* zone marker: after something ambiguous (zones: 0 = outsi
 R0(xml) == [E |-> "", inner |-> <<>>, raw |-> "", outer |-> {}, amb |-> FALSE, reg |-> 0,
             closed |-> {}, z |-> <<>>, xml |-> xml,    \* xml: XML dialect (EPUB chapter)
             starts |-> <<>>,                           \* position of the start tag of region k
-            gone |-> {}]                               \* single tokens that are removed elements by themselves
+            gone |-> {},                               \* single tokens that are removed elements by themselves
+            ts |-> "none",                             \* top-level table structure: none / table / row / cell
+            cell |-> 0, cbad |-> {}]                   \* current cell number; cells ended by a malformed table tag
 
-ZoneOf(r) == IF r.amb THEN AMB ELSE IF r.E = "" THEN 0 ELSE r.reg
-InIframe(r) == r.E = "iframe" \/ "iframe" \in Range(r.inner)
 Ambiguous(r) == [r EXCEPT !.amb = TRUE]
+\* text directly inside <table> / <tr> (outside every cell) is not cell text: where it ends up is open (DC)
+\* text in a cell that a malformed table tag cuts short (<td> inside an open <td> ...) is DC as well: zone 100 + cell
+ZoneOf(r) == IF r.amb \/ (r.E = "" /\ r.ts \in {"table", "row"}) THEN AMB
+             ELSE IF r.E # "" THEN r.reg
+             ELSE IF r.ts = "cell" THEN 100 + r.cell ELSE 0
+TableNames == {"table", "tr", "td", "th"}
+\* the only table shape in the universe: <table><tr><td|th> ... </td|/th></tr></table>; anything else is DC from there on
+TableStep(r, t) ==
+    LET nx == IF r.ts = "none" /\ t.k = "S" /\ t.n = "table" THEN "table"
+              ELSE IF r.ts = "table" /\ t.k = "S" /\ t.n = "tr" THEN "row"
+              ELSE IF r.ts = "row" /\ t.k = "S" /\ t.n \in {"td", "th"} THEN "cell"
+              ELSE IF r.ts = "cell" /\ t.k = "E" /\ t.n \in {"td", "th"} THEN "row"
+              ELSE IF r.ts = "row" /\ t.k = "E" /\ t.n = "tr" THEN "table"
+              ELSE IF r.ts = "table" /\ t.k = "E" /\ t.n = "table" THEN "none"
+              ELSE "bad"
+    IN IF nx = "bad" THEN [r EXCEPT !.amb = TRUE, !.cbad = IF r.ts = "cell" THEN @ \cup {r.cell} ELSE @]
+       ELSE [r EXCEPT !.ts = nx, !.outer = @ \cup {t.n}, !.cell = IF nx = "cell" THEN @ + 1 ELSE @]
+InIframe(r) == r.E = "iframe" \/ "iframe" \in Range(r.inner)
 CloseRegion(r) == [r EXCEPT !.E = "", !.raw = "", !.inner = <<>>, !.closed = @ \cup {r.reg}]
 
 \* effect of one token on the reference parse (r.amb = FALSE)
 RefTop(r, t) ==                                        \* outside every removable element
-    IF t.k = "S" THEN
+    IF t.n \in TableNames THEN TableStep(r, t)
+    ELSE IF t.k = "S" THEN
         IF t.n \in RawText THEN [r EXCEPT !.E = t.n, !.raw = t.n, !.reg = @ + 1, !.starts = Append(@, Len(r.z))]
         ELSE IF t.n \in Removable \ Void THEN [r EXCEPT !.E = t.n, !.inner = <<>>, !.reg = @ + 1,
                                                          !.starts = Append(@, Len(r.z))]
@@ -200,22 +219,25 @@ RefStep(r, t) ==
     LET m == [r EXCEPT !.z = Append(@, ZoneOf(r))] IN  \* the token's own zone: judged before its effect
     IF r.amb THEN m
     ELSE IF r.raw # "" THEN RefRaw(m, t)
-    ELSE IF r.E = "" THEN RefTop(m, t)
+    ELSE IF r.E = "" THEN
+        LET n == RefTop(m, t) IN                       \* a cell in which something ambiguous happens: its fate is open
+        IF n.amb /\ r.ts = "cell" THEN [n EXCEPT !.cbad = @ \cup {r.cell}] ELSE n
     ELSE RefIn(m, t)
 
 RECURSIVE RefScan(_, _, _)
 RefScan(toks, i, r) == IF i > Len(toks) THEN r ELSE RefScan(toks, i + 1, RefStep(r, toks[i]))
 
-ClassOf(t, z, closed) ==
+ClassOf(t, z, closed, cbad) ==
     IF ~IsWord(t) THEN "-"
     ELSE IF t.k = "C" THEN "MUSTNOT"
     ELSE IF z = AMB THEN "DC"
+    ELSE IF z >= 100 THEN (IF t.k = "D" \/ (z - 100) \in cbad THEN "DC" ELSE "MUST")
     ELSE IF z = 0 THEN (IF t.k = "D" THEN "DC" ELSE "MUST")
     ELSE IF z \in closed THEN "MUSTNOT"
     ELSE "DC"
 
 ClassX(toks, xml) == LET r == RefScan(toks, 1, R0(xml)) IN
-                     [i \in 1..Len(toks) |-> ClassOf(toks[i], r.z[i], r.closed)]
+                     [i \in 1..Len(toks) |-> ClassOf(toks[i], r.z[i], r.closed, r.cbad)]
 Class(toks) == ClassX(toks, FALSE)                     \* HTML dialect
 
 Conforms(cls, seen) == \A i \in DOMAIN cls : (cls[i] = "MUST" => i \in seen)
@@ -234,7 +256,7 @@ DelX(toks, xml) == LET r == RefScan(toks, 1, R0(xml)) IN
     { i \in 1..Len(toks) : \/ r.z[i] \in r.closed
                             \/ (\E k \in r.closed : r.starts[k] = i)
                             \/ i \in r.gone
-                            \/ (toks[i].k = "C" /\ r.z[i] = 0) }
+                            \/ (toks[i].k = "C" /\ (r.z[i] = 0 \/ r.z[i] >= 100)) }
 AllDecided(cls) == \A i \in DOMAIN cls : cls[i] # "DC"
 ConformsRaw(cls, seen) == \A i \in DOMAIN cls : cls[i] = "MUST" => i \in seen   \* documented raw-HTML output
 
